@@ -345,3 +345,21 @@ Example C16_engine_example :
   exists c, crun mf_conv (cx_init (mkMD [] [] []) [] ss_empty 0%N) h = Ok c /\
             engine (sh (cx_ed c)) = EngSimple /\ config_get_int_c c "chewing.conversion_engine" = 0%Z.
 Proof. cbv zeta. split; [repeat constructor|]. vm_compute. eexists. repeat split. Qed.
+
+(* ---- the two numeric options in the C context model, in ANY context (whatever the buffer holds, an open list, a
+   half-typed syllable): a value of the documented range is accepted and read back unchanged, any other int is
+   refused with -1 and the context is the one before (Proofs/CapiOptions.v) ---- *)
+From LC Require Import Proofs.CapiOptions.
+Theorem C16_auto_commit_threshold_reads_back_in_any_context : forall (c : cctx) v c' rc,
+  config_set_int_c c (Config.iopt_name Config.OAutoCommitThreshold) v = Ok (c', rc) ->
+  ((0 <= v <= 39)%Z -> rc = c_OK /\ config_get_int_c c' (Config.iopt_name Config.OAutoCommitThreshold) = v) /\
+  (~ (0 <= v <= 39)%Z -> rc = c_ERROR /\ c' = c).
+Proof. exact c_threshold_reads_back. Qed.
+Print Assumptions C16_auto_commit_threshold_reads_back_in_any_context.
+
+Theorem C16_candidates_per_page_reads_back_in_any_context : forall (c : cctx) v c' rc,
+  config_set_int_c c (Config.iopt_name Config.OCandidatesPerPage) v = Ok (c', rc) ->
+  ((1 <= v <= 10)%Z -> rc = c_OK /\ config_get_int_c c' (Config.iopt_name Config.OCandidatesPerPage) = v) /\
+  (~ (1 <= v <= 10)%Z -> rc = c_ERROR /\ c' = c).
+Proof. exact c_per_page_reads_back. Qed.
+Print Assumptions C16_candidates_per_page_reads_back_in_any_context.
